@@ -13,6 +13,8 @@ STUBS = {
     "fmt_empty": ("std::fmt::format", "crate::env::fmt_empty"),
     "fmt_sink": ("std::fmt::format", "crate::env::fmt_sink"),
     "sd_jd_ghost": ("tyme4rs::tyme::solar::SolarDay::get_julian_day", "crate::env::sd_jd_ghost"),
+    "sixty_from_name": ("tyme4rs::tyme::sixtycycle::SixtyCycle::from_name", "crate::env::sixty_from_name_model"),
+    "lunar_day_never": ("tyme4rs::tyme::lunar::LunarDay::from_ymd", "crate::env::lunar_day_never"),
     "index_of_small": ("tyme4rs::tyme::AbstractCulture::index_of", "crate::env::index_of_small"),
     "index_of_spec": ("tyme4rs::tyme::AbstractCulture::index_of", "crate::env::index_of_spec"),
     "shuo_any": ("tyme4rs::tyme::util::ShouXingUtil::calc_shuo", "crate::env::astro_any"),
